@@ -65,6 +65,19 @@ type BubbleConfig struct {
 	// goroutine always runs, and at each decision index listed in ChangeAt the
 	// goroutine that was about to run drops to the lowest priority instead.
 	PCT *PCT
+	// Tail, when non-nil, decides every decision beyond the end of the tape
+	// pseudo-randomly (a pure function of Seed and the decision index) instead
+	// of "keep running the same goroutine": with probability Sticky% the
+	// running goroutine continues, otherwise one of the enabled ones is picked.
+	// Long runs (thousands of decisions) are otherwise only perturbed in
+	// their first len(Tape) decisions.
+	Tail *Tail
+}
+
+// Tail configures the pseudo-random continuation of the tape (see BubbleConfig.Tail).
+type Tail struct {
+	Seed   uint32 `json:"seed"`
+	Sticky int    `json:"sticky"`
 }
 
 // PCT configures the priority strategy (see BubbleConfig.PCT).
@@ -383,6 +396,11 @@ func (b *Bubble) loop(clients []Client) {
 		var t uint16
 		if out.Decisions < len(b.cfg.Tape) {
 			t = b.cfg.Tape[out.Decisions]
+		} else if tl := b.cfg.Tail; tl != nil {
+			r := mix(uint64(tl.Seed)<<20^uint64(out.Decisions), "tail")
+			if int(r%100) >= tl.Sticky {
+				t = uint16((r >> 8) % 8)
+			}
 		}
 		g := en[int(t)%len(en)]
 		if p := b.cfg.PCT; p != nil {
